@@ -74,22 +74,22 @@ fn vie_i64_seq_seeds<const S: u8>(_t: Tier) -> Vec<Seed> {
 }
 
 macro_rules! vie {
-    ($v:ident, $s:literal, $name:literal) => {
-        $v.push(P { name: concat!("VarIntEncoder[", $name, "]::decode_u64"), seeds: vie_u64_seeds::<$s>, parse: |b, _| enc($s).decode_u64(b).is_ok(), len_arg: false, small: true });
-        $v.push(P { name: concat!("VarIntEncoder[", $name, "]::decode_i64"), seeds: vie_i64_seeds::<$s>, parse: |b, _| enc($s).decode_i64(b).is_ok(), len_arg: false, small: true });
+    ($v:ident, $s:literal, $name:literal, $small:expr) => {
+        $v.push(P { name: concat!("VarIntEncoder[", $name, "]::decode_u64"), seeds: vie_u64_seeds::<$s>, parse: |b, _| enc($s).decode_u64(b).is_ok(), len_arg: false, small: $small });
+        $v.push(P { name: concat!("VarIntEncoder[", $name, "]::decode_i64"), seeds: vie_i64_seeds::<$s>, parse: |b, _| enc($s).decode_i64(b).is_ok(), len_arg: false, small: $small });
         $v.push(P {
             name: concat!("VarIntEncoder[", $name, "]::decode_u64_sequence"),
             seeds: vie_u64_seq_seeds::<$s>,
             parse: |b, _| enc($s).decode_u64_sequence(b).is_ok(),
             len_arg: false,
-            small: true,
+            small: $small,
         });
         $v.push(P {
             name: concat!("VarIntEncoder[", $name, "]::decode_i64_sequence"),
             seeds: vie_i64_seq_seeds::<$s>,
             parse: |b, _| enc($s).decode_i64_sequence(b).is_ok(),
             len_arg: false,
-            small: true,
+            small: $small,
         });
     };
 }
@@ -175,20 +175,20 @@ fn bs_values() -> Vec<(&'static str, BTreeSet<String>)> {
 }
 
 macro_rules! complex {
-    ($v:ident, $name:literal, $t:ty, $vals:ident) => {
+    ($v:ident, $name:literal, $t:ty, $vals:ident, $small_meta:expr, $small_data:expr) => {
         $v.push(P {
             name: concat!("ComplexTypeSerializer::deserialize_from_bytes<", $name, ">[metadata]"),
             seeds: |_| complex_seeds::<$t>($vals(), true),
             parse: |b, _| cts(true).deserialize_from_bytes::<$t>(b).is_ok(),
             len_arg: false,
-            small: true,
+            small: $small_meta,
         });
         $v.push(P {
             name: concat!("ComplexTypeSerializer::deserialize_from_bytes<", $name, ">[data only]"),
             seeds: |_| complex_seeds::<$t>($vals(), false),
             parse: |b, _| cts(false).deserialize_from_bytes::<$t>(b).is_ok(),
             len_arg: false,
-            small: true,
+            small: $small_data,
         });
     };
 }
@@ -340,7 +340,8 @@ fn read_ints<I: DataInput>(i: &mut I) -> bool {
     i.read_u8().is_ok() && i.read_u16().is_ok() && i.read_u32().is_ok() && i.read_u64().is_ok() && i.read_var_int().is_ok() && i.skip(1).is_ok()
 }
 
-pub fn all(_tier: Tier) -> Vec<P> {
+pub fn all(tier: Tier) -> Vec<P> {
+    let th = tier == Tier::Thorough;
     let mut v: Vec<P> = vec![
         P { name: "VarInt::decode", seeds: varint_seeds, parse: |b, _| VarInt::decode(b).is_ok(), len_arg: false, small: true },
         P { name: "VarInt::decode_multiple", seeds: varint_multi_seeds, parse: |b, _| VarInt::decode_multiple(b).is_ok(), len_arg: false, small: true },
@@ -356,41 +357,44 @@ pub fn all(_tier: Tier) -> Vec<P> {
             small: true,
         },
     ];
-    vie!(v, 0, "Leb128");
-    vie!(v, 1, "Zigzag");
-    vie!(v, 2, "Delta");
-    vie!(v, 3, "GroupVarint");
-    vie!(v, 4, "PrefixFree");
-    vie!(v, 5, "Compact");
-    vie!(v, 6, "Simd");
+    vie!(v, 0, "Leb128", true);
+    vie!(v, 1, "Zigzag", true);
+    vie!(v, 2, "Delta", true);
+    vie!(v, 3, "GroupVarint", true);
+    vie!(v, 4, "PrefixFree", true);
+    // Compact and Simd delegate to the Leb128 / Zigzag functions
+    vie!(v, 5, "Compact", th);
+    vie!(v, 6, "Simd", th);
 
     v.push(P { name: "SimdVarintCodec::decode_single", seeds: simd_single_seeds, parse: |b, _| SimdVarintCodec::new().decode_single(b).is_ok(), len_arg: false, small: true });
-    v.push(P { name: "SimdVarintCodec::decode_batch", seeds: simd_batch_seeds, parse: |b, n| SimdVarintCodec::new().decode_batch(b, n).is_ok(), len_arg: true, small: true });
-    v.push(P { name: "simd_encoding::decode_varint", seeds: simd_single_seeds, parse: |b, _| decode_varint(b).is_ok(), len_arg: false, small: true });
-    v.push(P { name: "simd_encoding::decode_varint_batch", seeds: simd_batch_seeds, parse: |b, n| decode_varint_batch(b, n).is_ok(), len_arg: true, small: true });
+    v.push(P { name: "SimdVarintCodec::decode_batch", seeds: simd_batch_seeds, parse: |b, n| SimdVarintCodec::new().decode_batch(b, n).is_ok(), len_arg: true, small: th });
+    v.push(P { name: "simd_encoding::decode_varint", seeds: simd_single_seeds, parse: |b, _| decode_varint(b).is_ok(), len_arg: false, small: th });
+    v.push(P { name: "simd_encoding::decode_varint_batch", seeds: simd_batch_seeds, parse: |b, n| decode_varint_batch(b, n).is_ok(), len_arg: true, small: th });
 
-    complex!(v, "(u32,String,bool)", Tup3, tup3_values);
-    complex!(v, "(Vec<String>,Option<u64>,Vec<Vec<u8>>)", TupNest, tupnest_values);
-    complex!(v, "[u32;4]", [u32; 4], arr_values);
-    complex!(v, "Option<String>", Option<String>, opt_values);
-    complex!(v, "Result<u32,String>", Result<u32, String>, res_values);
-    complex!(v, "HashMap<String,u32>", HashMap<String, u32>, hm_values);
-    complex!(v, "HashSet<u32>", HashSet<u32>, hs_values);
-    complex!(v, "BTreeMap<u32,String>", BTreeMap<u32, String>, bm_values);
-    complex!(v, "BTreeSet<String>", BTreeSet<String>, bs_values);
+    // `small`: a data-only collection starts with a u32 element count, so a large share of the 4-byte strings
+    // aborts on `with_capacity(count)`; that defect is reached through the seeds, not 3000 times over
+    complex!(v, "(u32,String,bool)", Tup3, tup3_values, true, true);
+    complex!(v, "(Vec<String>,Option<u64>,Vec<Vec<u8>>)", TupNest, tupnest_values, th, false);
+    complex!(v, "[u32;4]", [u32; 4], arr_values, th, th);
+    complex!(v, "Option<String>", Option<String>, opt_values, th, th);
+    complex!(v, "Result<u32,String>", Result<u32, String>, res_values, th, th);
+    complex!(v, "HashMap<String,u32>", HashMap<String, u32>, hm_values, th, false);
+    complex!(v, "HashSet<u32>", HashSet<u32>, hs_values, th, false);
+    complex!(v, "BTreeMap<u32,String>", BTreeMap<u32, String>, bm_values, th, false);
+    complex!(v, "BTreeSet<String>", BTreeSet<String>, bs_values, th, false);
     v.push(P {
         name: "ComplexTypeSerializer::deserialize_batch<(u32,String,bool)>[metadata]",
         seeds: |_| batch_seeds(true),
         parse: |b, _| cts(true).deserialize_batch::<Tup3>(b).is_ok(),
         len_arg: false,
-        small: true,
+        small: false,
     });
     v.push(P {
         name: "ComplexTypeSerializer::deserialize_batch<(u32,String,bool)>[data only]",
         seeds: |_| batch_seeds(false),
         parse: |b, _| cts(false).deserialize_batch::<Tup3>(b).is_ok(),
         len_arg: false,
-        small: true,
+        small: false,
     });
     v.push(P {
         name: "NestedSerialize::deserialize_nested<(Vec<String>,Option<u64>,Vec<Vec<u8>>)>",
@@ -400,7 +404,7 @@ pub fn all(_tier: Tier) -> Vec<P> {
             <TupNest as NestedSerialize>::deserialize_nested(&mut i, 0).is_ok()
         },
         len_arg: false,
-        small: true,
+        small: false,
     });
 
     // smart pointers through SmartPtrSerializer (markers + ids) ...
@@ -409,28 +413,28 @@ pub fn all(_tier: Tier) -> Vec<P> {
         seeds: |_| [s("hi"), long_string()].iter().filter_map(|x| sps().serialize_to_bytes::<String, Box<String>>(&Box::new(x.clone())).ok().map(|b| seed(&format!("box[{}]", x.len()), b, 0))).collect(),
         parse: |b, _| sps().deserialize_from_bytes::<String, Box<String>>(b).is_ok(),
         len_arg: false,
-        small: true,
+        small: th,
     });
     v.push(P {
         name: "SmartPtrSerializer::deserialize_from_bytes<Option<Box<u32>>>",
         seeds: |_| [None, Some(Box::new(7u32))].iter().filter_map(|x| sps().serialize_to_bytes::<u32, Option<Box<u32>>>(x).ok().map(|b| seed(&format!("optbox({})", x.is_some()), b, 0))).collect(),
         parse: |b, _| sps().deserialize_from_bytes::<u32, Option<Box<u32>>>(b).is_ok(),
         len_arg: false,
-        small: true,
+        small: th,
     });
     v.push(P {
         name: "SmartPtrSerializer::deserialize_from_bytes<Rc<String>>",
         seeds: |_| [s("rc"), long_string()].iter().filter_map(|x| sps().serialize_to_bytes::<String, Rc<String>>(&Rc::new(x.clone())).ok().map(|b| seed(&format!("rc[{}]", x.len()), b, 0))).collect(),
         parse: |b, _| sps().deserialize_from_bytes::<String, Rc<String>>(b).is_ok(),
         len_arg: false,
-        small: true,
+        small: th,
     });
     v.push(P {
         name: "SmartPtrSerializer::deserialize_from_bytes<Arc<Vec<u32>>>",
         seeds: |_| [vec![], vec![1u32, 2, 3], (0..40u32).collect()].iter().filter_map(|x| sps().serialize_to_bytes::<Vec<u32>, Arc<Vec<u32>>>(&Arc::new(x.clone())).ok().map(|b| seed(&format!("arc[{}]", x.len()), b, 0))).collect(),
         parse: |b, _| sps().deserialize_from_bytes::<Vec<u32>, Arc<Vec<u32>>>(b).is_ok(),
         len_arg: false,
-        small: true,
+        small: th,
     });
     v.push(P {
         name: "SmartPtrSerializer::deserialize_from_bytes<rc::Weak<String>>",
@@ -442,7 +446,7 @@ pub fn all(_tier: Tier) -> Vec<P> {
         },
         parse: |b, _| sps().deserialize_from_bytes::<String, std::rc::Weak<String>>(b).is_ok(),
         len_arg: false,
-        small: true,
+        small: th,
     });
     v.push(P {
         name: "SmartPtrSerializer::deserialize_from_bytes<sync::Weak<String>>",
@@ -454,7 +458,7 @@ pub fn all(_tier: Tier) -> Vec<P> {
         },
         parse: |b, _| sps().deserialize_from_bytes::<String, std::sync::Weak<String>>(b).is_ok(),
         len_arg: false,
-        small: true,
+        small: th,
     });
     // ... and the plain SerializableType deserialisers
     v.push(P { name: "SerializableType::deserialize<String>", seeds: |_| ser_seeds(vec![("''", s("")), ("hi", s("hi")), ("long", long_string())]), parse: |b, _| de::<String>(b), len_arg: false, small: true });
@@ -463,28 +467,28 @@ pub fn all(_tier: Tier) -> Vec<P> {
         seeds: |_| ser_seeds(vec![("[]", vec![]), ("[a,bc]", vec![s("a"), s("bc")]), ("[long;2]", vec![long_string(), long_string()])]),
         parse: |b, _| de::<Vec<String>>(b),
         len_arg: false,
-        small: true,
+        small: false,
     });
     v.push(P {
         name: "SerializableType::deserialize<Vec<Vec<u8>>>",
         seeds: |_| ser_seeds(vec![("[]", vec![]), ("[[],[1,2,3]]", vec![vec![], vec![1u8, 2, 3]]), ("[[ff;300]]", vec![vec![0xFFu8; 300]])]),
         parse: |b, _| de::<Vec<Vec<u8>>>(b),
         len_arg: false,
-        small: true,
+        small: false,
     });
     v.push(P {
         name: "SerializableType::deserialize<Vec<u64>>",
         seeds: |_| ser_seeds(vec![("[]", vec![]), ("[edges]", U64_VALUES.to_vec())]),
         parse: |b, _| de::<Vec<u64>>(b),
         len_arg: false,
-        small: true,
+        small: false,
     });
     v.push(P {
         name: "SerializableType::deserialize<Box<Rc<Arc<String>>>>",
         seeds: |_| ser_seeds(vec![("boxed", Box::new(Rc::new(Arc::new(s("deep")))))]),
         parse: |b, _| de::<Box<Rc<Arc<String>>>>(b),
         len_arg: false,
-        small: true,
+        small: th,
     });
     v.push(P {
         name: "SerializableType::deserialize<Option<HashMap<String,Vec<u32>>>>",
@@ -495,7 +499,7 @@ pub fn all(_tier: Tier) -> Vec<P> {
         },
         parse: |b, _| de::<Option<HashMap<String, Vec<u32>>>>(b),
         len_arg: false,
-        small: true,
+        small: th,
     });
     v.push(P {
         name: "SerializableType::deserialize<BTreeMap<String,BTreeSet<u32>>>",
@@ -506,14 +510,14 @@ pub fn all(_tier: Tier) -> Vec<P> {
         },
         parse: |b, _| de::<BTreeMap<String, BTreeSet<u32>>>(b),
         len_arg: false,
-        small: true,
+        small: false,
     });
     v.push(P {
         name: "SerializableType::deserialize<HashSet<String>>",
         seeds: |_| ser_seeds(vec![("{}", HashSet::new()), ("{x}", [s("x")].into_iter().collect::<HashSet<String>>())]),
         parse: |b, _| de::<HashSet<String>>(b),
         len_arg: false,
-        small: true,
+        small: false,
     });
 
     // versioning
@@ -523,12 +527,12 @@ pub fn all(_tier: Tier) -> Vec<P> {
         seeds: |_| ser_seeds(vec![("proxy(hi)", VersionProxy::new(s("hi"), Version::new(1, 0, 0))), ("proxy(long)", VersionProxy::new(long_string(), Version::new(1, 0, 0)))]),
         parse: |b, _| de::<VersionProxy<String>>(b),
         len_arg: false,
-        small: true,
+        small: th,
     });
-    v.push(P { name: "VersionedSerializer[default]::deserialize_from_bytes<Rec>", seeds: versioned_seeds, parse: |b, _| vs(0).deserialize_from_bytes::<Rec>(b).is_ok(), len_arg: false, small: true });
-    v.push(P { name: "VersionedSerializer[strict]::deserialize_from_bytes<Rec>", seeds: versioned_seeds, parse: |b, _| vs(1).deserialize_from_bytes::<Rec>(b).is_ok(), len_arg: false, small: true });
-    v.push(P { name: "VersionedSerializer[flexible]::deserialize_from_bytes<Rec>", seeds: versioned_seeds, parse: |b, _| vs(2).deserialize_from_bytes::<Rec>(b).is_ok(), len_arg: false, small: true });
-    v.push(P { name: "VersionedSerializer[development]::deserialize_from_bytes<Rec>", seeds: versioned_seeds, parse: |b, _| vs(3).deserialize_from_bytes::<Rec>(b).is_ok(), len_arg: false, small: true });
+    v.push(P { name: "VersionedSerializer[default]::deserialize_from_bytes<Rec>", seeds: versioned_seeds, parse: |b, _| vs(0).deserialize_from_bytes::<Rec>(b).is_ok(), len_arg: false, small: th });
+    v.push(P { name: "VersionedSerializer[strict]::deserialize_from_bytes<Rec>", seeds: versioned_seeds, parse: |b, _| vs(1).deserialize_from_bytes::<Rec>(b).is_ok(), len_arg: false, small: th });
+    v.push(P { name: "VersionedSerializer[flexible]::deserialize_from_bytes<Rec>", seeds: versioned_seeds, parse: |b, _| vs(2).deserialize_from_bytes::<Rec>(b).is_ok(), len_arg: false, small: th });
+    v.push(P { name: "VersionedSerializer[development]::deserialize_from_bytes<Rec>", seeds: versioned_seeds, parse: |b, _| vs(3).deserialize_from_bytes::<Rec>(b).is_ok(), len_arg: false, small: th });
     v.push(P {
         name: "VersionedSerialize::deserialize_versioned<Rec>",
         seeds: versioned_direct_seeds,
@@ -537,7 +541,7 @@ pub fn all(_tier: Tier) -> Vec<P> {
             Rec::deserialize_versioned(&mut i).is_ok()
         },
         len_arg: false,
-        small: true,
+        small: th,
     });
     v.push(P {
         name: "VersionManager::deserialize_proxy<Vec<String>>",
@@ -557,7 +561,7 @@ pub fn all(_tier: Tier) -> Vec<P> {
             m.deserialize_proxy::<Vec<String>, _>(Version::new(1, 0, 0), &mut i).is_ok()
         },
         len_arg: false,
-        small: true,
+        small: th,
     });
 
     // DataInput over a slice and over a reader
@@ -575,8 +579,8 @@ pub fn all(_tier: Tier) -> Vec<P> {
         len_arg: false,
         small: true,
     });
-    v.push(P { name: "SliceDataInput::read_string(len)", seeds: raw_string_seeds, parse: |b, n| SliceDataInput::new(b).read_string(n).is_ok(), len_arg: true, small: true });
-    v.push(P { name: "SliceDataInput::read_vec(len)", seeds: raw_string_seeds, parse: |b, n| SliceDataInput::new(b).read_vec(n).is_ok(), len_arg: true, small: true });
+    v.push(P { name: "SliceDataInput::read_string(len)", seeds: raw_string_seeds, parse: |b, n| SliceDataInput::new(b).read_string(n).is_ok(), len_arg: true, small: th });
+    v.push(P { name: "SliceDataInput::read_vec(len)", seeds: raw_string_seeds, parse: |b, n| SliceDataInput::new(b).read_vec(n).is_ok(), len_arg: true, small: th });
     v.push(P {
         name: "SliceDataInput::read_bytes(buf)",
         seeds: raw_string_seeds,
@@ -585,29 +589,29 @@ pub fn all(_tier: Tier) -> Vec<P> {
             SliceDataInput::new(b).read_bytes(&mut buf).is_ok()
         },
         len_arg: true,
-        small: true,
+        small: th,
     });
-    v.push(P { name: "SliceDataInput::read_u8/u16/u32/u64/var_int/skip", seeds: fixed_ints_seeds, parse: |b, _| read_ints(&mut SliceDataInput::new(b)), len_arg: false, small: true });
+    v.push(P { name: "SliceDataInput::read_u8/u16/u32/u64/var_int/skip", seeds: fixed_ints_seeds, parse: |b, _| read_ints(&mut SliceDataInput::new(b)), len_arg: false, small: th });
     v.push(P {
         name: "ReaderDataInput::read_length_prefixed_string",
         seeds: lp_string_seeds,
         parse: |b, _| ReaderDataInput::new(std::io::Cursor::new(b)).read_length_prefixed_string().is_ok(),
         len_arg: false,
-        small: true,
+        small: th,
     });
     v.push(P {
         name: "ReaderDataInput::read_length_prefixed_bytes",
         seeds: lp_bytes_seeds,
         parse: |b, _| ReaderDataInput::new(std::io::Cursor::new(b)).read_length_prefixed_bytes().is_ok(),
         len_arg: false,
-        small: true,
+        small: th,
     });
     v.push(P {
         name: "ReaderDataInput::read_u8/u16/u32/u64/var_int/skip",
         seeds: fixed_ints_seeds,
         parse: |b, _| read_ints(&mut ReaderDataInput::new(std::io::Cursor::new(b))),
         len_arg: false,
-        small: true,
+        small: th,
     });
     v
 }
